@@ -855,6 +855,21 @@ func (r *smRig) oracleState(o smOut, op string) {
 					return
 				}
 			}
+			// a FIN recorded as "sent in packet pn" must really be in flight in that packet,
+			// otherwise its loss can never be noticed and the stream never ends for the peer
+			if st := s.outclosed.state() >> 62; st == 2 {
+				pn := int64(uint64(s.outclosed) & (1<<62 - 1))
+				carried := false
+				for _, f := range r.inflight[pn] {
+					if f.id == id && f.fin {
+						carried = true
+					}
+				}
+				if !carried {
+					o.Fail("", fmt.Sprintf("%s: stream %d records its FIN as sent in packet %d, but no in-flight STREAM frame of that packet carries the FIN bit", op, id, pn))
+					return
+				}
+			}
 			// Close would return nil only when everything is acknowledged
 			if s.outclosed.isReceived() && s.outacked.isrange(0, s.out.end) {
 				if s.out.end != r.written[id] {
